@@ -2062,11 +2062,14 @@ impl<'a> Searcher<'a> {
                 expr.right.as_ref().unwrap(),
             );
 
+            // wildcards make a pattern of a literal, not of another column's value (`name = ext`)
+            let literal = expr.right.as_ref().is_some_and(|right| right.val.is_some());
+
             result = match field_value.get_type() {
                 VariantType::String => {
                     let val = value.to_string();
                     match op {
-                        Op::Eq => match is_glob(&val) {
+                        Op::Eq => match literal && is_glob(&val) {
                             true => {
                                 let cache_key = format!("glob:{}", val);
                                 let regex = self.regex_cache.get(&cache_key);
@@ -2091,7 +2094,7 @@ impl<'a> Searcher<'a> {
                             }
                             false => val.eq(&field_value.to_string()),
                         },
-                        Op::Ne => match is_glob(&val) {
+                        Op::Ne => match literal && is_glob(&val) {
                             true => {
                                 let cache_key = format!("glob:{}", val);
                                 let regex = self.regex_cache.get(&cache_key);
